@@ -12,19 +12,23 @@ VARIABLES lc,      \* c -> [life, g, loop, h, praddr, plisten, localReq, peerShu
           hs,      \* handles that have been opened
           pend,    \* handle -> a read(2) has returned data that OnTraffic has not been called for yet
           req,     \* asynchronous request -> [c, kind, accepted, cbs, nocb, closedAtIssue, afterStop]
-          eng      \* [booted, stopReq, onShutdown, runRet, opened, closed]
-vars == <<l, viols, lc, loopg, hs, pend, req, eng>>
+          eng,     \* [booted, stopReq, onShutdown, runRet, opened, closed]
+          failed   \* handles on which a system call failed with a non-retryable error
+vars == <<l, viols, lc, loopg, hs, pend, req, eng, failed>>
 
 NewC == [life |-> "none", g |-> 0, loop |-> -1, h |-> 0, praddr |-> "", plisten |-> "", localReq |-> FALSE, peerShut |-> "no",
          traffic |-> 0, wakeTraffic |-> 0, wakeCb |-> 0, wakeIss |-> 0]
 NewE == [booted |-> FALSE, stopReq |-> FALSE, onShutdown |-> 0, runRet |-> FALSE, opened |-> 0, closed |-> 0, bootStop |-> FALSE]
 C(c) == Get(lc, c, NewC)
 
-Init == /\ l = 1 /\ viols = <<>> /\ lc = Empty /\ loopg = Empty /\ hs = {} /\ pend = Empty /\ req = Empty /\ eng = NewE
+Init == /\ l = 1 /\ viols = <<>> /\ lc = Empty /\ loopg = Empty /\ hs = {} /\ pend = Empty /\ req = Empty /\ eng = NewE /\ failed = {}
         /\ TLCSet(1, 1) /\ TLCSet(2, <<>>)
 
 Step(lc2, lg2, hs2, pd2, rq2, en2, vs) ==
     /\ l' = l + 1 /\ lc' = lc2 /\ loopg' = lg2 /\ hs' = hs2 /\ pend' = pd2 /\ req' = rq2 /\ eng' = en2 /\ viols' = vs /\ Mark
+    /\ failed' = (IF Ev.ev = "Reset" THEN {}
+                   ELSE IF Ev.ev = "Sys" /\ Ev.site \in {"el.read", "el.write", "el.writev", "c.write", "c.writev"} /\ Ev.h # 0
+                           /\ Ev.err \notin {"nil", "EAGAIN", "EINTR"} THEN failed \cup {Ev.h} ELSE failed)
 Same(vs) == Step(lc, loopg, hs, pend, req, eng, vs)
 SetC(c, rec, vs) == Step(Put(lc, c, rec), loopg, hs, pend, req, eng, vs)
 
@@ -98,13 +102,21 @@ Step1 ==
                   v4 == Check(~(r.closedAtIssue /\ r.kind \in {"Wake", "Close", "CloseCb"}) \/ e.err = "nil",
                               "WakeCloseOnClosedAreNoops", <<e.a, e.err>>, v3)
               IN Step(lc, loopg, hs, pend, Put(req, e.a, [r EXCEPT !.cbs = @ + 1]), eng, v4)
+         [] e.ev = "WOp" ->
+              \* a write operation that reports an error has closed the connection (it never leaves it open)
+              Same(Check(e.err = "nil" \/ C(e.c).life = "closed", "WriteErrorClosesConn", <<e.c, e.op, e.err>>, viols))
+         [] e.ev \in {"PeerFinTimeout", "ProbeFail"} /\ e.ev = "ProbeFail" ->
+              Same(Check(FALSE, "EngineKeepsRunning", e.ev, viols))
          [] e.ev = "Quiesce" ->
               \* nothing in flight: the engine's count equals connections opened and not yet closed, and every
               \* request accepted while the engine was running has had its callback exactly once
               LET v1 == Check(e.count = eng.opened - eng.closed, "CountEqualsOpenAtQuiescence", <<e.count, eng.opened, eng.closed>>, viols)
                   lost == {a \in DOMAIN req : req[a].accepted /\ ~req[a].nocb /\ ~req[a].afterStop /\ req[a].cbs # 1}
                   v2 == Check(lost = {}, "AcceptedRunsExactlyOnce", lost, v1)
-              IN Same(v2)
+                  \* C18: a connection on which a system call failed with a non-retryable error has been closed
+                  stillOpen == {c \in DOMAIN lc : lc[c].h \in failed /\ lc[c].life = "open"}
+                  v3 == Check(stillOpen = {}, "FaultClosesItsConnection", stillOpen, v2)
+              IN Same(v3)
          [] e.ev = "StopReq" -> Step(lc, loopg, hs, pend, req, [eng EXCEPT !.stopReq = TRUE, !.bootStop = (@ \/ e.src = "OnBoot")], viols)
          [] e.ev = "StopRet" ->
               \* Stop returns nil only after the engine has fully shut down
@@ -127,5 +139,5 @@ Step1 ==
                                 ELSE IF e.ev = "PeersTimeout" THEN "PeersServedInBoundedTime" ELSE "NeverOnOtherConn", e.ev, viols))
          [] OTHER -> Same(viols)
 
-Next == Step1 \/ FinishWith(<<lc, loopg, hs, pend, req, eng>>)
+Next == Step1 \/ FinishWith(<<lc, loopg, hs, pend, req, eng, failed>>)
 =============================================================================
